@@ -5,6 +5,7 @@ from props_common import *
 
 sys.path.insert(0, os.path.join(os.path.dirname(os.path.abspath(__file__)), "tools"))
 from gen_eph import gen_eph
+from gen_c13 import gen_c13
 
 
 def rand_lmonth(rng):
@@ -84,13 +85,17 @@ PROP = {
     "id": "C14",
     "thm_module": "Tyme.Thm.C14",
     "thm_file": "Tyme/Thm/C14.lean",
-    "lean_targets": ["Tyme.Thm.C14"],
+    "lean_targets": ["Tyme.Thm.C14", "Tyme.Thm.C14b"],
+    # C14b: totality of LunarWeek::get_first_day / get_days (uses the C13 new-year window facts, hence gen_c13)
+    "fact_files": [("Tyme/Thm/C14b.lean", "Tyme.Thm.C14b")],
     "audit_files": ["Tyme/Lemmas/Week.lean", "Tyme/Model/Week.lean", "Tyme/Spec/Week.lean",
                     "Tyme/Lemmas/Jd.lean", "Tyme/Model/Jd.lean", "Tyme/Spec/Civil.lean",
                     "Tyme/Model/LunarWeek.lean", "Tyme/Lemmas/LunarWeek.lean", "Tyme/Model/Lunar.lean", "Tyme/Model/Eph.lean",
                     "Tyme/Model/RealEph.lean", "Tyme/Lemmas/Lunar.lean", "Tyme/Lemmas/LunarWalk.lean", "Tyme/Thm/C02.lean",
-                    "Tyme/Facts/Months.lean", "Tyme/Facts/MonthsFact.lean", "Tyme/Basic/Packed.lean"],
-    "gen": [gen_eph],
+                    "Tyme/Facts/Months.lean", "Tyme/Facts/MonthsFact.lean", "Tyme/Basic/Packed.lean",
+                    "Tyme/Thm/C14b.lean", "Tyme/Lemmas/LunarWeekTotal.lean", "Tyme/Lemmas/ScmTotal.lean", "Tyme/Lemmas/ScmDays.lean",
+                    "Tyme/Thm/C02b.lean", "Tyme/Thm/C13.lean", "Tyme/Facts/C13Win.lean", "Tyme/Facts/C13Preds.lean"],
+    "gen": [gen_eph, gen_c13],
     "streams": [
         # per (year, month, start): week count, acceptance mask of SolarWeek::new for index 0..7, get_weeks, and for
         # every week the day number of its first day and the offsets of its 7 listed days
@@ -139,6 +144,8 @@ PROP = {
         "the harness is built against the scratch worktree of /repo with fixes/C14-week-oct1582.diff applied (get_solar_week position by day count); model and theorems describe the repaired behaviour",
         "LunarWeek: literal model Tyme.LWk (Model/LunarWeek.lean) over the extracted month table (realEph / fastEph, re-extracted from /repo on every run by tools/gen_eph.py); "
         "theorems C14_lunar_real_* hold on the five tiling intervals of lunar years 1..7, 9..22, 25..235, 237..238, 240..9998 (the excluded years are the D4 junctions, listed as known findings)",
-        "get_first_day / get_days go through SolarDay::get_lunar_day (guess-and-walk): proved partially correct (what it returns is the right lunar day), its termination within the fuel is validated by the correspondence run only (as in C02)",
+        "get_first_day / get_days go through SolarDay::get_lunar_day (guess-and-walk): proved partially correct on the whole of each interval (C14_lunar_real_first_day / _days: what it returns is the right lunar day) "
+        "and TOTALLY correct (Thm/C14b.lean, C14_lunar_first_day_total_real / C14_lunar_days_total_real: the calls return, the fuel is never exhausted) for every week of the lunar years "
+        "2..6, 10..21, 26..234, 241..9997 (one lunar year inside each interval); for the rim years 1, 7, 9, 22, 25, 235, 237, 238, 240, 9998 termination is validated by the correspondence run only",
     ],
 }
